@@ -280,6 +280,77 @@ def run_special(ctx):
                 continue
             common.add_violation(ctx, 'a parameter left out in set() is reported with the old value instead of its documented default',
                                  dict(case, attribute=names[i]), None if d_ is NOT_GIVEN else d_, got[i])
+    # set(text) leaves the object exactly as a fresh parse of text does: every attribute, for every object-backed keyword, from the form with
+    # all parameters to each shorter form (numbers only, names only, bare keyword)
+    def public(o):
+        out = {}
+        for k_, v_ in vars(o).items():
+            if k_.startswith('_') or k_ in ('shx',) or callable(v_):
+                continue
+            out[k_] = repr(v_) if not isinstance(v_, (list, tuple)) else repr([str(x) for x in v_])
+        return out
+    names4 = ['C1', 'O1', 'N1', 'C2', 'C1', 'O1']
+    for kw, (lo, hi, words, sfx, _) in sorted(rf.SYNTAX.items()):
+        if kw in ('HKLF', 'SUMP', 'FRAG', 'FEND', 'END', 'TITL', 'CELL', 'ZERR', 'SFAC', 'UNIT', 'LATT', 'SYMM', 'FVAR', 'RESI', 'PART', 'AFIX', 'EQIV', 'REM'):
+            continue
+        nums_full = [3 + i for i in range(hi)] if kw in rf.INT_KW else [1.25 + 0.5 * i for i in range(hi)]
+        wmax = names4[:words[1]] if words else []
+        wmin = names4[:words[0]] if words else []
+        full = ' '.join([kw] + [str(v) for v in nums_full] + wmax)
+        shorter = []
+        for nn in range(lo, hi + 1):
+            for ww in ([wmin, wmax] if words and wmin != wmax else [wmax]):
+                t_ = ' '.join([kw] + [str(v) for v in ([7 + i for i in range(nn)] if kw in rf.INT_KW else [0.75 + 0.25 * i for i in range(nn)])] + ww)
+                if t_ != full:
+                    shorter.append(t_)
+        for t_ in shorter:
+            text, status, inner, shx, pos = read(full)
+            obj = find_object(shx, pos)
+            if status != 'ok' or inner or obj is None or not hasattr(obj, 'set'):
+                break
+            text2, status2, inner2, shx2, pos2 = read(t_)
+            fresh = find_object(shx2, pos2)
+            if status2 != 'ok' or inner2 or fresh is None or type(fresh) is not type(obj):
+                continue
+            case = {'instruction': '%s -> set(%s)' % (full, t_), 'text': text}
+            try:
+                obj.set(t_)
+            except Exception as ex:
+                common.add_violation(ctx, 'set() raises', case, 'no exception', repr(ex))
+                continue
+            ev += 1
+            a_, b_ = public(obj), public(fresh)
+            diff = sorted(k_ for k_ in set(a_) | set(b_) if a_.get(k_) != b_.get(k_))
+            if diff:
+                common.add_violation(ctx, 'after set(text) an attribute differs from what reading text gives (a value of the old instruction is left over)',
+                                     dict(case, attributes=diff), {k_: b_.get(k_) for k_ in diff}, {k_: a_.get(k_) for k_ in diff})
+    # MOVE dx[0] dy[0] dz[0] sign[1] and DISP E f' f" mu: attributes that are lists / words
+    for line, exp_shift, exp_sign in (('MOVE', None, None), ('MOVE 0.5', [0.5, 0, 0], None), ('MOVE 0.5 0.25', [0.5, 0.25, 0], None), ('MOVE 0.5 0.25 -0.75', [0.5, 0.25, -0.75], None),
+                                      ('MOVE 1 1 1 -1', [1, 1, 1], -1)):
+        text, status, inner, shx, pos = read(line)
+        obj = find_object(shx, pos)
+        if status != 'ok' or inner or obj is None:
+            continue
+        case = {'instruction': line, 'text': text}
+        got = getattr(obj, 'dxdydz', None)
+        if exp_shift is None:
+            expect('MOVE without parameters: shifts', case, None, None if not got else list(got))
+        else:
+            expect('MOVE: the shifts written in the file (omitted ones are 0)', case, exp_shift, None if got is None else list(got))
+        if exp_sign is not None:
+            expect('MOVE: sign', case, exp_sign, getattr(obj, 'sign', None))
+    for line, el, nums in (('DISP C 0.0033 0.0016 11.5', 'C', [0.0033, 0.0016, 11.5]), ('DISP O 0.0106 0.006', 'O', [0.0106, 0.006])):
+        lines_ = HEAD[:6] + [line] + HEAD[6:] + ATOMS + TAIL
+        text = '\n'.join(lines_) + '\n'
+        status, inner, shx = im.read_text(text, 'quiet')
+        obj = find_object(shx, 6) if status == 'ok' and not inner else None
+        if obj is None or type(obj).__name__ != 'DISP':
+            continue
+        case = {'instruction': line, 'text': text}
+        e_ = getattr(obj, 'element', None)
+        expect('DISP: element', case, el, e_ if isinstance(e_, str) else (list(e_) if isinstance(e_, (list, tuple)) else e_))
+        p_ = getattr(obj, 'parameter', None)
+        expect('DISP: f\', f\'\' and mu', case, nums, list(p_) if isinstance(p_, (list, tuple)) else p_)
     text, status, inner, shx, pos = read('REM x')
     h_lines = HEAD + ATOMS + ['HKLF 4 0.5 0 1 0 1 0 0 0 0 -1 2 3', 'END']
     st_, in_, shx_h = im.read_text('\n'.join(h_lines) + '\n', 'quiet')
